@@ -582,6 +582,8 @@ def dispatch(ctx):
                     # activity threshold: a set counts as active only above a positive constant large enough that products of two
                     # active degrees cannot underflow to 0 (otherwise sum(mat) can be 0 and the gains become 0*inf = NaN)
                     thr = [sp.sympify(c.b) for c in s1.pc if isinstance(c, alg.Cond) and c.rel() == '>' and sp.sympify(c.a) == want and sp.sympify(c.b).is_number]
+                    # the same test with the constant on the left: eps < degree
+                    thr += [sp.sympify(c.a) for c in s1.pc if isinstance(c, alg.Cond) and c.rel() == '<' and sp.sympify(c.b) == want and sp.sympify(c.a).is_number]
                     if not thr:
                         probs.append('%s: a set is recorded as active without a test degree > constant' % E)
                     elif not all(t > sp.Float('1.5e-154') for t in thr):
